@@ -330,10 +330,16 @@ pub fn run(ctx: &mut Ctx, q: u64, t: u64, m: u64) {
     }
     let n = ctx.n(q, t, m);
     for k in 0..n {
+        if ctx.over_budget() {
+            break;
+        }
         random_case(&mut ctx.rep, seed, ctx.shard + k * ctx.nshards, false);
     }
     let n = ctx.n(q / 4, t / 4, m / 2);
     for k in 0..n {
+        if ctx.over_budget() {
+            break;
+        }
         listener_case(&mut ctx.rep, seed, ctx.shard + k * ctx.nshards);
     }
 }
